@@ -156,6 +156,18 @@ CHECKS['C03'] = {
     'technique': 'constant-table validation + interval abstract interpretation with witness generation + dependency analysis of loop exits + scale-type inference',
 }
 
+CHECKS['C08'] = {
+    'category': 'other',
+    'text': 'Structural clauses on closed forms extracted from MIR (loops as accumulators, iterator chains, Welford aggregates): Bessel divisor of the '
+            'sample vs population statistics; scale types mean X, var X^2, std X, cov XY, min/max X; covariance estimators centre at the mean or use '
+            'shifted data with the (sum dx)(sum dy)/n correction; online co-moment recurrences form one deviation before and one after the running-mean '
+            'update (statement order in the CFG; Welford\'s update is the reference sibling); argmin/argmax replace on a strict test (first occurrence); '
+            'min/max fold f64::min/max; Vector/Matrix statistics delegate to the free functions; mean = sum/len. Rounding/stability are not decided.',
+    'design_ref': 'DESIGN.md 4.8, 3 (E-SYM, E-WIRE, sibling rules)',
+    'note': 'hist_bin_centers on non-uniform edges and the exact Welford coefficients are outside the rules.',
+    'technique': 'abstract interpretation to closed forms + scale-type inference + term-shape rules + statement-order analysis of recurrences',
+}
+
 NOT_APPLICABLE = {
     'C09': 'accuracy of the Lanczos/asymptotic/Abramowitz-Stegun approximations over a continuum of arguments is a numerical '
            'quantity; no structural clause is a necessary condition without freezing coefficient tables (a brittle proxy); see DESIGN.md 4.9',
